@@ -24,7 +24,7 @@ FSeq == << FC("upper", NoArg), FC("lower", NoArg), FC("capfirst", NoArg), FC("ad
            FC("last", NoArg), FC("length", NoArg) >>
 
 Positions == <<"out", "if", "for", "with", "set", "macroarg", "macrodef", "arr", "sub", "inclpair", "cycle", "firstof",
-               "ifequal", "filtertag", "scope_with", "scope_for", "operand", "ifchanged", "scope_loop", "filtertag_scope", "macro_twice">>
+               "ifequal", "filtertag", "scope_with", "scope_for", "operand", "ifchanged", "scope_loop", "filtertag_scope", "macro_twice", "filtertag_empty", "filtertag_quiet">>
 
 Files == [inc |-> <<T(<<"i:">>), Out(Var(<<"q">>))>>]
 
@@ -48,6 +48,10 @@ At(pos, E, chain) ==
     [] pos = "ifchanged" -> <<[t |-> "ifchanged", args |-> <<E>>, body |-> <<T(<<"c">>)>>, els |-> <<T(<<"s">>)>>],
                               [t |-> "ifchanged", args |-> <<E>>, body |-> <<T(<<"c">>)>>, els |-> <<T(<<"s">>)>>]>>
     [] pos = "filtertag" -> <<[t |-> "filter", chain |-> IF chain = <<>> THEN <<FC("safe", NoArg)>> ELSE chain, body |-> <<T(<<"a", "b">>)>>]>>
+    \* a body with nothing in it, and a body that renders nothing: the chain is applied to the empty text all the same
+    [] pos = "filtertag_empty" -> <<T(<<"[">>), [t |-> "filter", chain |-> IF chain = <<>> THEN <<FC("safe", NoArg)>> ELSE chain, body |-> <<>>], T(<<"]">>)>>
+    [] pos = "filtertag_quiet" -> <<T(<<"[">>), [t |-> "filter", chain |-> IF chain = <<>> THEN <<FC("safe", NoArg)>> ELSE chain,
+                                                 body |-> <<[t |-> "if", conds |-> <<Var(<<"nope">>)>>, bodies |-> << <<T(<<"x">>)>> >>]>>], T(<<"]">>)>>
     [] pos = "scope_with" -> <<[t |-> "with", pairs |-> <<[name |-> "p", e |-> Lit(S(<<"q">>))]>>, body |-> <<Out(E)>>], Out(E)>>
     [] pos = "scope_for" -> <<[t |-> "for", key |-> "p", val |-> "", e |-> Var(<<"l">>), rev |-> FALSE, sorted |-> FALSE,
                                body |-> <<[t |-> "if", conds |-> <<Var(<<"forloop", "First">>)>>, bodies |-> << <<Out(E)>> >>]>>, empty |-> <<>>]>>
